@@ -1039,6 +1039,16 @@ impl MerkleTree {
                 }
             }
             while iter.index() != root {
+                if iter.contains(root) {
+                    // The requested node is not below the root this proof has to connect
+                    // to: climbing further would never arrive.
+                    return Err(HypercoreError::InvalidOperation {
+                        context: format!(
+                            "Invalid request, node {} is not in the subtree of {}",
+                            indexed.index, root
+                        ),
+                    });
+                }
                 iter.sibling();
                 if is_seek && iter.contains(seek_root) && iter.index() != seek_root {
                     let success_or_instruction =
